@@ -1775,7 +1775,7 @@ package engine
 //@       ((result as *partial).Compound as list) == ts && *((result as *partial).tail) == tail
 
 //@ func (*partial).Arg
-//@   property C02
+//@   property C02 C16
 //@   nosafety
 //@   requires p != nil && p.Compound != nil && p.tail != nil
 //@   modifies nothing
